@@ -1075,7 +1075,8 @@ class StubsStringGenerator:
             import_qname_path = import_qname.replace(".", "/")
             in_package = False
             qname = ""
-            for class_id in self.api.classes:
+            # Enums of the package are types of the package too
+            for class_id in (*self.api.classes, *self.api.enums):
                 if self._is_path_connected_to_class(import_qname_path, class_id):
                     qname = class_id.replace("/", ".")
 
